@@ -13,7 +13,7 @@ git -C /repo worktree add -q --detach $wt HEAD || exit 2
 cd $wt
 cp $src/demo.py $wt/_demo.py
 clean_demo=$(MPLBACKEND=Agg timeout 600 /venv/bin/python _demo.py >/dev/null 2>&1; echo $?)
-if ! git apply $src/patch.diff 2>/dev/null && ! git apply --3way $src/patch.diff 2>/dev/null && ! patch -p1 -s -F3 < $src/patch.diff; then echo "PATCH DOES NOT APPLY"; cd /; git -C /repo worktree remove --force $wt; exit 3; fi
+if ! git apply $src/patch.diff 2>/dev/null && ! patch -p1 -s -F3 < $src/patch.diff; then echo "PATCH DOES NOT APPLY"; cd /; git -C /repo worktree remove --force $wt; exit 3; fi
 suite=$(MPLBACKEND=Agg timeout 900 /venv/bin/python -m pytest -q -p no:cacheprovider --timeout=900 2>&1 | tail -1)
 mut_demo=$(MPLBACKEND=Agg timeout 600 /venv/bin/python _demo.py >/dev/null 2>&1; echo $?)
 rm -f _demo.py
